@@ -734,8 +734,9 @@ static void mover_body(void *arg)
             int kind = m->block_kind;
             if (kind == 3 && (m->parker == ABT_THREAD_NULL || state_of(m->parker) != 2))
                 kind = 0;
-            if (m->cancel_self && kind != 3) {
-                /* a migration and a cancellation are both pending when it blocks: the migration is
+            if (m->cancel_self) {
+                /* a migration and a cancellation are both pending when it blocks (by suspending, in a wait, or by
+                 * handing over to a parked unit with resume_suspend_to): the migration is
                  * performed there, the cancellation when it is resumed -- it never runs again */
                 int cur = last_pool_of_self();
                 request(m->id, m, 0, (cur + 1 + rnd(g_nes - 1)) % g_nes);
@@ -826,8 +827,11 @@ static void mig_serve(int who)
             int mine = ((i % 2) && g_have_ext) ? -1 : 0;
             if (mine != who)
                 continue;
-            if (m->cancelled && !m->done && state_of(m->th) == 3)
-                m->done = 1; /* ended by its own cancellation request */
+            if (m->cancelled && !m->done && state_of(m->th) == 3) {
+                /* ended by its own cancellation request -- which is honoured only when it is resumed */
+                EV("\"e\":\"StateObs\",\"by\":%d,\"u\":%d,\"st\":3", who, m->id);
+                m->done = 1;
+            }
             if (m->done)
                 continue;
             alive = 1;
@@ -949,7 +953,7 @@ static void scn_migrate(void)
         m->cbmode = rnd(2);
         m->self_req = m->migratable ? (rnd(3) == 0 ? 1 + rnd(2) : 0) : 0;
         m->suspend_round = rnd(3) == 0 ? rnd(m->rounds) : -1;
-        m->cancel_self = m->migratable && m->suspend_round >= 0 && g_nes > 1 && m->block_kind != 3 && rnd(3) == 0;
+        m->cancel_self = m->migratable && m->suspend_round >= 0 && g_nes > 1 && rnd(3) == 0;
         if (m->cancel_self)
             m->self_req = 1; /* (no requests from the others for this unit) */
         m->revive_after = m->migratable && !m->cancel_self && rnd(4) == 0;
